@@ -246,6 +246,17 @@ impl Check for C07 {
             // f32 encodings round the value; the encoder's item list has the rounded ones
             expected = enc::encode(&c.doc).items;
         }
+        // The statement is relative: "reads as the same tag sequence as the all-known-size encoding". A reader that gets
+        // that encoding wrong too (a matcher or a payload-decoding defect) is some other property's case: counted, left alone.
+        {
+            let mut k = c.doc.clone();
+            gen::strip_unknown(&mut k);
+            let mut scratch = Stats::default();
+            if check_variant(c, &k, &expected, &mut scratch).is_err() {
+                st.inc("known_size_encoding_not_read_as_the_tree_left_to_other_checks");
+                return Ok(ExecOk { nontrivial: false });
+            }
+        }
         let masters = eligible_masters(&c.spec, &c.doc);
         let mut nontrivial = false;
         if c.sweep && masters.len() <= 7 {
